@@ -144,7 +144,7 @@ class Violation(Exception):
         self.prop, self.oracle, self.detail = prop, oracle, detail
 
 
-INTERPRETATION_ERRORS = (KeyError, IndexError, AttributeError, TypeError, ValueError)
+INTERPRETATION_ERRORS = (KeyError, IndexError, AttributeError, TypeError, ValueError, SyntaxError)
 
 
 def uninterpretable(rec, exc):
